@@ -102,7 +102,8 @@ FILTER_LISTS = [
 ]
 SIDS = ["s1", "s2", "s3"]
 SID_MAPS = {
-    "plain": {"s1": "sub1", "s2": "sub2", "s3": "sub3"},
+    # (the empty string is a subscription id like any other)
+    "plain": {"s1": "sub1", "s2": "sub2", "s3": ""},
     "hostile": {"s1": "s'1\"\\", "s2": "ä\U0001f600 2", "s3": "s3\n\t\u0001"},
 }
 
